@@ -166,7 +166,8 @@ theorem cacheKey_injective (n1 n2 t1 t2 : String) (h1 : t1 ∈ typeNames) (h2 : 
 def WF (p : Plugin) : Prop :=
   ∀ k f, (k, f) ∈ p.cache → ∃ name op m, (op, m) ∈ methods ∧ k = cacheKey name m.typeName ∧ f.cls = m.cls
 
-theorem WF_empty : WF Plugin.empty := by intro k f h; simp [Plugin.empty] at h
+theorem WF_fresh (foreign : List String) : WF (Plugin.fresh foreign) := by intro k f h; simp [Plugin.fresh] at h
+theorem WF_empty : WF Plugin.empty := WF_fresh []
 
 theorem construct_cls (p : Plugin) (m : Method) (a : Args) (f : Family) (h : construct p m a = some f) :
     f.cls = m.cls := by
@@ -182,7 +183,7 @@ theorem construct_cls (p : Plugin) (m : Method) (a : Args) (f : Family) (h : con
 theorem useFamily_WF (p : Plugin) (m : Method) (key : String) (f : Family) (a : Args)
     (hw : WF p) (hf : (key, f) ∈ p.cache) : WF (useFamily p m key f a).1 := by
   unfold useFamily
-  have upd : ∀ cs, WF ⟨setFamily p.cache key { f with children := cs }⟩ := by
+  have upd : ∀ cs, WF (p.withCache (setFamily p.cache key { f with children := cs })) := by
     intro cs k g hg
     rcases mem_assocSet _ _ _ _ hg with h | h
     · exact hw k g h
@@ -207,9 +208,9 @@ theorem call_WF (p : Plugin) (op : String) (m : Method) (a : Args) (hm : (op, m)
     split
     · exact hw
     · next f hc =>
-      have hw' : WF ⟨p.cache ++ [(cacheKey a.name m.typeName, f)]⟩ := by
+      have hw' : WF (p.withCache (p.cache ++ [(cacheKey a.name m.typeName, f)])) := by
         intro k g hg
-        simp only [List.mem_append, List.mem_singleton, Prod.mk.injEq] at hg
+        simp only [Plugin.withCache_cache, List.mem_append, List.mem_singleton, Prod.mk.injEq] at hg
         rcases hg with h | ⟨rfl, rfl⟩
         · exact hw k g h
         · exact ⟨a.name, op, m, hm, rfl, construct_cls p m a _ hc⟩
@@ -240,12 +241,56 @@ theorem targetOf_error (f : Family) (a : Args) (o : Outcome) (h : targetOf f a =
     · simp at h
     · simp only [Except.error.injEq] at h; subst h; simp
 
+theorem useFamily_ok_family (p p' : Plugin) (m : Method) (key : String) (f : Family) (a : Args)
+    (h : useFamily p m key f a = (p', .ok)) :
+    ∃ cs, p'.cache.lookup key = some { f with children := cs } := by
+  unfold useFamily at h
+  split at h
+  · next o ho =>
+    simp only [Prod.mk.injEq] at h
+    exact absurd h.2 (targetOf_error f a o ho)
+  · simp only at h
+    split at h
+    · simp at h
+    · simp only [Prod.mk.injEq, and_true] at h
+      subst h
+      exact ⟨_, by simp only [Plugin.withCache_cache]; exact lookup_assocSet_self _ _ _⟩
+
+theorem targetOf_series (f : Family) (a : Args) (lv : List String) (h : targetOf f a = .ok lv) :
+    lv = reportSeries f.labelNames a.labels := by
+  unfold targetOf at h
+  unfold reportSeries
+  split at h
+  · next hne =>
+    have : a.labels.isEmpty = false := by simpa using hne
+    simp only [this, Bool.false_eq_true, if_false]
+    split at h
+    · next lv0 hc =>
+      simp only [Except.ok.injEq] at h
+      subst h
+      unfold childFor at hc
+      split at hc
+      · simp at hc
+      · split at hc
+        · simp only [Option.some.injEq] at hc; exact hc.symm
+        · simp at hc
+    · simp at h
+  · next he =>
+    have : a.labels.isEmpty = true := by simpa using he
+    simp only [this, if_true]
+    split at h
+    · simp only [Except.ok.injEq] at h; exact h.symm
+    · simp at h
+
 /-- a successful operation on the object cached under `key`: the operation of the method, applied with the value
-    to the time series of the label values, is what the scrape shows afterwards; other keys are untouched -/
+    to the time series of the report's label values, is what the scrape shows afterwards; the other series of the
+    object and all other keys are untouched -/
 theorem useFamily_ok (p p' : Plugin) (m : Method) (key : String) (f : Family) (a : Args)
     (h : useFamily p m key f a = (p', .ok)) :
-    ∃ lv acc', (numArg a m.opArg).bind (fun v => applyOp f.cls m.op v (accOf f lv)) = some acc' ∧
+    ∃ lv acc', targetOf f a = .ok lv ∧
+      (numArg a m.opArg).bind (fun v => applyOp f.cls m.op v (accOf f lv)) = some acc' ∧
       sampleOf p' key lv = some acc' ∧
+      (∀ lv', lv' ≠ lv → sampleOf p' key lv' = f.children.lookup lv') ∧
       (∀ k' lv', k' ≠ key → sampleOf p' k' lv' = sampleOf p k' lv') := by
   unfold useFamily at h
   split at h
@@ -259,8 +304,11 @@ theorem useFamily_ok (p p' : Plugin) (m : Method) (key : String) (f : Family) (a
     · next acc' hb =>
       simp only [Prod.mk.injEq, and_true] at h
       subst h
-      refine ⟨lv, acc', hb, ?_, ?_⟩
-      · simp only [sampleOf, setFamily, setChild, lookup_assocSet_self, Option.bind_some]
+      refine ⟨lv, acc', hlv, hb, ?_, ?_, ?_⟩
+      · simp only [sampleOf, Plugin.withCache_cache, setFamily, setChild, lookup_assocSet_self, Option.bind_some]
+      · intro lv' hne
+        simp only [sampleOf, Plugin.withCache_cache, setFamily, setChild, lookup_assocSet_self, Option.bind_some]
+        exact lookup_assocSet_ne _ _ _ _ hne
       · intro k' lv' hne
         simp [sampleOf, lookup_assocSet_ne _ _ _ _ hne]
 
@@ -276,14 +324,19 @@ theorem table_typeName_mem (op : String) (m : Method) (h : (op, m) ∈ methods) 
 /-- every operation of the plugin hands the value to an adding operation of its own class, under `except Exception` -/
 theorem table_op (op : String) (m : Method) (h : (op, m) ∈ methods) :
     m.opArg = .value ∧ m.guard = some .exc ∧
-    ∀ v acc acc', applyOp m.cls m.op v acc = some acc' → acc' = ⟨acc.count + 1, acc.sum + v⟩ := by
+    ∀ v acc acc', applyOp m.cls m.op v acc = some acc' →
+      acc' = ⟨countAfter m.cls v acc.count, acc.sum.add v⟩ := by
   simp only [methods, List.mem_cons, List.not_mem_nil, or_false, Prod.mk.injEq] at h
   rcases h with ⟨-, rfl⟩ | ⟨-, rfl⟩ | ⟨-, rfl⟩ | ⟨-, rfl⟩ <;>
     refine ⟨rfl, rfl, ?_⟩ <;> intro v acc acc' ha <;> simp only [applyOp] at ha
   · split at ha
     · simp at ha
-    · simpa using ha.symm
-  all_goals simpa using ha.symm
+    · simpa [countAfter] using ha.symm
+  · simpa [countAfter] using ha.symm
+  · simp only [Option.some.injEq] at ha
+    subst ha
+    simp only [countAfter, true_and]
+  · simpa [countAfter] using ha.symm
 
 theorem construct_fresh (p : Plugin) (m : Method) (a : Args) (f : Family) (h : construct p m a = some f)
     (lv : List String) : accOf f lv = Acc.zero := by
@@ -302,59 +355,90 @@ theorem construct_fresh (p : Plugin) (m : Method) (a : Args) (f : Family) (h : c
         · simp [List.lookup]
   · simp at h
 
+/-- a freshly constructed object has no series but the one a report without labels addresses -/
+theorem construct_children_other (p : Plugin) (m : Method) (a : Args) (f : Family) (h : construct p m a = some f)
+    (lv lv' : List String) (ht : targetOf f a = .ok lv) (hne : lv' ≠ lv) : f.children.lookup lv' = none := by
+  unfold construct at h
+  split at h
+  · next full keys hb hk =>
+    split at h
+    · simp at h
+    · split at h
+      · simp at h
+      · simp only [Option.some.injEq] at h
+        subst h
+        cases hke : keys.isEmpty with
+        | false => simp [hke]
+        | true =>
+          simp only [hke, if_true]
+          -- no label names: the only report that is accepted has no labels, its series is []
+          have hlv : lv = [] := by
+            unfold targetOf at ht
+            simp only [hke] at ht
+            split at ht
+            · unfold childFor at ht
+              simp [hke] at ht
+            · simp only [if_true, Except.ok.injEq] at ht
+              exact ht.symm
+          subst hlv
+          have : (lv' == ([] : List String)) = false := by simpa using hne
+          simp [List.lookup, this]
+  · simp at h
+
 /-- **the value reaches the client library** (any plugin state satisfying the cache invariant) -/
 theorem call_ok_value (p p' : Plugin) (op : String) (m : Method) (a : Args) (hm : (op, m) ∈ methods) (hw : WF p)
     (h : call p m a = (p', .ok)) :
-    ∃ lv, sampleOf p' (cacheKey a.name m.typeName) lv =
-        some ⟨((sampleOf p (cacheKey a.name m.typeName) lv).getD Acc.zero).count + 1,
-              ((sampleOf p (cacheKey a.name m.typeName) lv).getD Acc.zero).sum + a.value⟩ ∧
-      (∀ k' lv', k' ≠ cacheKey a.name m.typeName → sampleOf p' k' lv' = sampleOf p k' lv') := by
+    ∃ f', p'.cache.lookup (cacheKey a.name m.typeName) = some f' ∧
+      let key := cacheKey a.name m.typeName
+      let lv := reportSeries f'.labelNames a.labels
+      let prev := (sampleOf p key lv).getD Acc.zero
+      sampleOf p' key lv = some ⟨countAfter m.cls a.value prev.count, prev.sum.add a.value⟩ ∧
+      (∀ lv', lv' ≠ lv → sampleOf p' key lv' = sampleOf p key lv') ∧
+      (∀ k' lv', k' ≠ key → sampleOf p' k' lv' = sampleOf p k' lv') := by
   obtain ⟨hArg, -, hOp⟩ := table_op op m hm
   unfold call at h
   simp only at h
   split at h
   · next f hl =>
-    obtain ⟨lv, acc', hb, hs, hfr⟩ := useFamily_ok p p' m _ f a h
+    obtain ⟨cs, hfam⟩ := useFamily_ok_family p p' m _ f a h
+    obtain ⟨lv, acc', hlv, hb, hs, hoth, hfr⟩ := useFamily_ok p p' m _ f a h
     obtain ⟨name', op', m', hm', hk', hc'⟩ := hw _ _ (mem_of_lookup _ _ _ hl)
     have hinj := cacheKey_injective _ _ _ _ (table_typeName_mem op m hm) (table_typeName_mem op' m' hm') hk'
     have hcls : f.cls = m.cls := by rw [hc']; exact table_cls op' op m' m hm' hm hinj.2.symm
     rw [hArg, hcls] at hb
     simp only [numArg, Option.bind_some] at hb
     have hacc := hOp _ _ _ hb
-    refine ⟨lv, ?_, hfr⟩
-    have hprev : sampleOf p (cacheKey a.name m.typeName) lv = f.children.lookup lv := by simp [sampleOf, hl]
-    rw [hs, hacc, hprev]; rfl
+    have hser := targetOf_series f a lv hlv
+    refine ⟨_, hfam, ?_⟩
+    have hprev : ∀ x, sampleOf p (cacheKey a.name m.typeName) x = f.children.lookup x := by intro x; simp [sampleOf, hl]
+    simp only
+    rw [← hser]
+    refine ⟨?_, ?_, hfr⟩
+    · rw [hs, hacc, hprev]; rfl
+    · intro lv' hne; rw [hoth lv' hne, hprev]
   · next hl =>
     split at h
     · simp at h
     · next f hc =>
-      obtain ⟨lv, acc', hb, hs, hfr⟩ := useFamily_ok _ p' m _ f a h
+      obtain ⟨cs, hfam⟩ := useFamily_ok_family _ p' m _ f a h
+      obtain ⟨lv, acc', hlv, hb, hs, hoth, hfr⟩ := useFamily_ok _ p' m _ f a h
       rw [hArg, construct_cls p m a f hc, construct_fresh p m a f hc lv] at hb
       simp only [numArg, Option.bind_some] at hb
       have hacc := hOp _ _ _ hb
-      refine ⟨lv, ?_, ?_⟩
-      · have hprev : sampleOf p (cacheKey a.name m.typeName) lv = none := by simp [sampleOf, hl]
-        rw [hs, hacc, hprev]; rfl
+      have hser := targetOf_series f a lv hlv
+      have hprev : ∀ x, sampleOf p (cacheKey a.name m.typeName) x = none := by intro x; simp [sampleOf, hl]
+      refine ⟨_, hfam, ?_⟩
+      simp only
+      rw [← hser]
+      refine ⟨?_, ?_, ?_⟩
+      · rw [hs, hacc, hprev]; rfl
+      · intro lv' hne
+        rw [hoth lv' hne, hprev, construct_children_other p m a f hc lv lv' hlv hne]
       · intro k' lv' hne
         rw [hfr k' lv' hne]
         simp [sampleOf, lookup_append_single_ne _ _ _ _ hne]
 
 /-! ### which object a report lands in -/
-
-theorem useFamily_ok_family (p p' : Plugin) (m : Method) (key : String) (f : Family) (a : Args)
-    (h : useFamily p m key f a = (p', .ok)) :
-    ∃ cs, p'.cache.lookup key = some { f with children := cs } := by
-  unfold useFamily at h
-  split at h
-  · next o ho =>
-    simp only [Prod.mk.injEq] at h
-    exact absurd h.2 (targetOf_error f a o ho)
-  · simp only at h
-    split at h
-    · simp at h
-    · simp only [Prod.mk.injEq, and_true] at h
-      subst h
-      exact ⟨_, lookup_assocSet_self _ _ _⟩
 
 theorem table_ctor (op : String) (m : Method) (h : (op, m) ∈ methods) :
     m.ctorName = .name ∧ m.ctorNamespace = .namespace ∧ m.ctorUnit = .unit ∧ m.ctorLabelnames = .labelKeys ∧
@@ -427,7 +511,7 @@ theorem call_keys (p : Plugin) (m : Method) (a : Args) :
     · exact Or.inl rfl
     · next f hc =>
       refine Or.inr ⟨not_mem_of_lookup_none _ _ hl, ?_⟩
-      rw [useFamily_keys ⟨p.cache ++ [(cacheKey a.name m.typeName, f)]⟩ m _ f a (by simp)]
+      rw [useFamily_keys (p.withCache (p.cache ++ [(cacheKey a.name m.typeName, f)])) m _ f a (by simp)]
       simp
 
 theorem run_keys_nodup (calls : List (String × Args)) :
